@@ -291,7 +291,15 @@ class Runner:
         # anything else (VERIFICATION ERROR, solver out of memory, properties left in state ERROR/UNKNOWN) is no verdict
         ok_pass = rc == 0 and 'VERIFICATION SUCCESSFUL' in so
         ok_fail = rc == 10 and 'VERIFICATION FAILED' in so
-        if props and not (ok_pass or ok_fail) or any(r_ in ('ERROR', 'UNKNOWN') for _, _, r_ in props):
+        # cbmc 6 treats its generated checks (pointer dereference, division by zero, ...) as fatal: properties that lie
+        # behind a FAILED fatal check are reported UNKNOWN.  A run with an explicit FAILED verdict and at least one
+        # FAILURE of a real property (each comes with a solver trace and is replayed natively) is a counterexample;
+        # UNKNOWN only blocks a PASS verdict.  ERROR (solver out of memory) never gives a verdict.
+        has_err = any(r_ == 'ERROR' for _, _, r_ in props)
+        has_unk = any(r_ == 'UNKNOWN' for _, _, r_ in props)
+        real_fail = any(r_ == 'FAILURE' and 'VERIF witness' not in d_ for _, d_, r_ in props)
+        cex = ok_fail and real_fail and not has_err
+        if not cex and (props and not (ok_pass or ok_fail) or has_err or has_unk):
             res['status'] = 'oom' if ('out of memory' in (so + se).lower() or 'bad_alloc' in (so + se)) else 'error'
             res['detail'] = 'cbmc returned no verdict (rc=%s): %s' % (rc, ' '.join(l for l in so.split('\n') if 'ERROR' in l or 'memory' in l.lower())[:300])
             return res
